@@ -1363,6 +1363,23 @@ class Prelude:
                 txt += ' = ' + em.e(init[0])
             except Unsupported:
                 pass
+        elif init and '-DVERIF_TABLE_INITS' in getattr(self.tu, 'cmd', []) and init[0].get('kind') == 'InitListExpr':
+            # R14b (opt-in per proof, @define VERIF_TABLE_INITS): a non-const table whose initialiser lists nothing but functions
+            # (C function tables) is emitted WITH its initialiser, preceded by the prototypes of those functions; the proof
+            # switches --nondet-static off to see the initial contents (claim about the table as linked, not after writes)
+            fns = []
+            def fref(x):
+                while x.get('kind') in ('ImplicitCastExpr', 'ParenExpr', 'CStyleCastExpr') and x.get('inner'): x = x['inner'][0]
+                d = x.get('referencedDecl') if x.get('kind') == 'DeclRefExpr' else None
+                return self.tu.byid.get(d['id'], d) if d and d.get('kind') == 'FunctionDecl' else None
+            for c in init[0].get('inner', []):
+                d = fref(c)
+                if d is None: fns = None; break
+                fns.append(d)
+            if fns:
+                em = em_factory()
+                pre = ''.join(self.prototype(d, self.namer.cname(d))[0] + ';\n' for d in fns)
+                txt = pre + txt + ' = ' + em.e(init[0])
         return txt + ';', False
 
 
